@@ -356,6 +356,29 @@ CHECKS = {
         technique='contract-based: postconditions on the figure traces checked at run time over enumerated tie patterns and generated data frames (bounded stand-in); supporting z3 lemma on the rank rule',
     ),
 }
+
+# additions of the fourth strengthening round (appended to the claims above)
+ROUND4 = {
+    'C01': 'Outputs without any measurement (while other outputs have some) are part of the enumerated grids.',
+    'C03': 'The plain-value obligation of LogLikelihood (call.sum-once) and the bounded run-time contracts of the error models (long vectors, reused buffers) are re-run here, since "same score" needs both sides.',
+    'C04': 'Bounded run-time contract: the instances are passed in arrays that held other contents in an earlier evaluation of the same model instance (in-place overwritten buffers).',
+    'C05': 'Compositions with two or more covariate-dependent sub-models (symbolic numbers of covariates): in every method each sub-model receives its own covariate columns.',
+    'C06': 'CovariatePopulationModel.sample executed on symbolic covariate rows (2 covariates, 1- and 2-dimensional wrapped models, per-sample rows, one shared row, shared first column): sample k has the wrapped law at its own row, with its own draws.  Refuted independence obligations are replayed by a native joint-variance test over both entry indices.',
+    'C07': 'Delegation contract: likelihood, sensitivities (both forms) and the individual-parameter transform hand the wrapped model vartheta_i in the published (parameter-major) layout, pass observations / eta / upstream sensitivities through, and return [dpsi | d vartheta_0 | d beta] (recording stub for the wrapped model, real LinearCovariateModel).',
+    'C09': 'The assumed solver contract now includes the solver time and its state sensitivities (reset restores them; run starts from them and logs only points inside [time, time + duration)): a second simulate call on the same model, on the single-point grid [0], must again run from time 0 with default state sensitivities and return the requested point.',
+    'C10': 'Bounded run-time contracts: dose rows attached to sampled measurements by the individual / population (with and without covariate rows) / posterior predictive models; the regimen each individual likelihood built by the problem controller simulates with equals that individual\'s dose rows (generated datasets).',
+    'C11': 'Reduced wrapper: the histories are compared with the net configuration by documented semantics (which parameters are fixed, sensitivity status incl. the reset by set_outputs); refutations are replayed natively against a fresh model with the net configuration.',
+    'C12': 'A composed filter that was re-ordered with sort_times and is used as a sub-filter of another composed filter that is re-ordered again (all pairs of orders).',
+    'C13': 'Compositions with two covariate-dependent sub-models; bounded end-to-end contract over every real filter class and a composed filter, with and without missing measurements (value differences and gradient vs central differences).',
+    'C14': 'Generated datasets include individuals without measurements of the first mapped observable and exact replicate rows.',
+    'C15': 'Native population witness with two covariates (rows not ascending, shared first column); table cases with covariate rows and dose rows together.',
+    'C16': 'Reduced error models (nothing fixed, released, one fixed); a numpy Generator passed as seed must be advanced (two successive native calls differ, state changed); bounded contract for the posterior / prior / averaged predictive models (reproducible, seeds differ, no shared noise between samples, generator advanced).  One genuine defect repaired (fix commit 031dd96: PriorPredictiveModel rejected a Generator).',
+    'C17': 'User-supplied ReducedMechanisticModel (nothing fixed / fixed and released) as sub-model of likelihoods, predictive models and the controller; the mechanistic sub-model\'s own count = names invariant is part of every composite invariant.',
+    'C18': 'Hierarchical posteriors with exactly one individual are part of chains.map and the bounded read-back.',
+    'C19': 'Bounded: ten seeded sampling entry points repeated after re-seeding / advancing the global generator, after a sibling\'s sampling, after the same call on a twin object, and in a forked worker.',
+}
+for _k, _v in ROUND4.items():
+    CHECKS[_k]['text'] += '  ' + _v
 NOT_APPLICABLE = {}
 
 # property id -> contract module (a module may exist before the property is claimed in CHECKS)
